@@ -160,6 +160,38 @@ def live_walks(d, count, rnd, maxlen=14):
     return sorted(words)
 
 
+def pumped_words(d, rnd, count=6, reps=(257, 300, 1000)):
+    """Very long words: an accepted (or rejected) walk with one self-loop of the automaton pumped hundreds of times -
+    the verdict of a regular language cannot depend on the length, an implementation's can (ints above 256, recursion)."""
+    loops = [(s, a) for s in d.states for a in d.sigma if d.delta[s][a] == s and a != FOREIGN and d.out[s] != "REJECT" or
+             (d.delta[s][a] == s and a != FOREIGN and any(d.out[t] == "ACCEPT" for t in d.states))]
+    loops = [(s, a) for (s, a) in loops if s in d.access]
+    words = set()
+    rnd.shuffle(loops)
+    for (s, a) in loops[:count]:
+        pre = d.access[s]
+        # shortest completion from s to an accepting state, if any
+        frontier, seen, comp = [((), s)], {s}, None
+        for _ in range(10):
+            nxt = []
+            for w, q in frontier:
+                if d.out[q] == "ACCEPT":
+                    comp = w
+                    break
+                for b in d.sigma:
+                    t = d.delta[q][b]
+                    if t not in seen:
+                        seen.add(t)
+                        nxt.append((w + (b,), t))
+            if comp is not None:
+                break
+            frontier = nxt
+        n = rnd.choice(reps)
+        words.add(pre + (a,) * n + (comp or ()))
+        words.add(pre + (a,) * n)
+    return sorted(words)
+
+
 def suite(d, k, short_len, cap, rnd):
     """W-method suite P.Sigma^{<=k+1}.W plus all words up to short_len (both capped by sampling)."""
     words = set()
@@ -428,7 +460,8 @@ def run(rep, tier, seed):
             cap, short_len = 150000, 6
         words, wm, trunc = suite(d, k, short_len, cap, rnd)
         lw = live_walks(d, 300 if tier == "quick" else 5000, rnd)
-        words = sorted(set(words) | set(lw))
+        pw = pumped_words(d, rnd)
+        words = sorted(set(words) | set(lw) | set(pw))
         if unit == "@metadata":
             els = ["metadata"]
         else:
@@ -440,7 +473,7 @@ def run(rep, tier, seed):
         for el in els:
             items += [(unit, el, w) for w in words]
         per_unit[unit] = {"automaton_states": len(d.states), "minimal_states": d.minimal_states, "alphabet": nsig,
-                          "extra_states_k": k, "W": len(d.W), "suite_words": len(words), "w_method_words": wm, "sampled": trunc, "accepted_random_walks": len(lw)}
+                          "extra_states_k": k, "W": len(d.W), "suite_words": len(words), "w_method_words": wm, "sampled": trunc, "accepted_random_walks": len(lw), "pumped_long_words": len(pw)}
     rnd.shuffle(items)
     items.sort(key=lambda it: (it[0], str(it[1])))          # a worker gets runs of words of one rule (forest walks need them together)
     G.update(rules=rules, dfas=dfas, elem1={ru: [e for e in els if e != "metadata"][0] for ru, els in elements.items() if [e for e in els if e != "metadata"]})
